@@ -24,7 +24,7 @@ REAL = ["cssutils/codec.py (detectencoding_str/unicode, _fixencoding, encode, de
 STUBS = ["SimPipe (byte queue with scripted delivery: short reads, empty reads before data)", "Producer (seeded text/encoding generator)"]
 ASSUMPTIONS = [
     "texts contain neither U+0000 nor U+FEFF (they are indistinguishable from BOM bytes of another encoding; CSS 2.1 4.4 is silent there)",
-    "all four consumers are driven with UTF-8/16/32, single-byte legacy and multi-byte CJK encodings; stateful ones (iso2022_jp, hz) not through StreamWriter, which has no end-of-stream call to return to ASCII",
+    "all four consumers are driven with UTF-8/16/32, single-byte legacy and multi-byte CJK encodings; stateful ones (iso2022_jp, hz) too; a StreamWriter's end of stream is flush() followed by reset()",
     "reference detector is silent for inputs starting with '@' 00 or 00 (BOM-less UTF-16/32 signature rows)",
 ]
 PROBES = [
@@ -41,6 +41,8 @@ PROBES = [
     "oneshot_raises",
     "coder_reused_after_reset",
     "state_saved_and_restored",
+    "writer_reset_at_end",
+    "writer_reset_wrote_pending",
 ]
 
 PREFIX = '@charset "'
@@ -237,8 +239,8 @@ def config(rs, run, tier):
     if cons == "sread":
         enc = r.choice(UTF + SINGLE + MULTI)
     elif cons == "swrite":
-        # (a stateful encoding needs an end-of-stream call to return to ASCII, which StreamWriter lacks)
-        enc = r.choice(UTF + SINGLE + [m for m in MULTI if m not in STATEFUL])
+        # (stateful encodings included: the writer's reset() at the end of the stream returns to ASCII)
+        enc = r.choice(UTF + SINGLE + MULTI)
     else:
         enc = r.choice(UTF + SINGLE + MULTI)
     c = rs("content")
@@ -554,6 +556,15 @@ class World:
                 if self.remaining():
                     self._feed(self.remaining(), False)
                 self.c.flush()
+                # end of stream for a codecs.StreamWriter: reset() "puts the output into a clean state" - an
+                # undecided header still held back and the return to ASCII of a stateful encoding are written
+                before = len(self.sink.getvalue())
+                self.c.reset()
+                self.stats["probe:writer_reset_at_end"] += 1
+                tail = self.sink.getvalue()[before:]
+                if tail:
+                    self.stats["probe:writer_reset_wrote_pending"] += 1
+                self._got(tail, bytes)
         except Viol:
             raise
         except Exception as e:
